@@ -25,6 +25,8 @@ func propConfigs() map[string]*PropConfig {
 	add(&PropConfig{ID: "C01", Prefix: "VH_C01_", Sets: []HarnessSet{hfiles("fast", fastLib, "fast/c01_binary_gen.go", "fast/c01_more_gen.go")},
 		Thorough: func(n string) bool { return strings.Contains(n, "_T_") },
 		Explain: "pattern B: the real Comp.BinaryExpr1/UnaryExpr/Symbol.expr compile functions are executed on symbolic operands per (operator, kind, constness shape); the returned closure is run and compared with the native Go operator"})
+	add(&PropConfig{ID: "C02", Prefix: "VH_C02_", Sets: []HarnessSet{hfiles("fast", fastLib, "fast/c01_binary_gen.go", "fast/c02_var_gen.go")},
+		Explain: "pattern B: the real Comp.setVar/setPlace compile functions are executed per (operator, kind, storage class, constness, closure depth); the returned statement closure is run on a chain of symbolic frames and the post-state compared with the native Go operator, including frame condition (all other slots unchanged), IP protocol and single evaluation"})
 	xrp := "(*github.com/cosmos72/gomacro/xreflect.xtype)."
 	add(&PropConfig{ID: "C34", Prefix: "VH_C34_", Sets: []HarnessSet{hfiles("xreflect", "xreflect/lib_xreflect.go", "xreflect/c34_gen.go")},
 		Redirect: map[string]string{xrp + "NumMethod": "vhModelNumMethod", xrp + "Method": "vhModelMethod", xrp + "GetMethods": "vhModelGetMethods"},
